@@ -87,20 +87,42 @@ Theorem C05_api_status_is_cache_status_or_old : forall w r F w' e wr,
 Proof. exact api_status_is_cache_status_or_old. Qed.
 Print Assumptions C05_api_status_is_cache_status_or_old.
 
-(* counters.  The two genuine defects were repaired in /repo (fix: killPods counts
-   retained and non-target pods ...; fix: syncJob counts an out-of-sync pod once);
-   the pre-fix functions are kept in the model with their refutation witnesses.
-   The full-strength statement is still refuted by the PodGroup-pending path
-   (known finding C05-pgpending-stale-counters). *)
-Theorem C05_counters_partition_refuted : ~ counters_partition_statement.
-Proof. exact counters_partition_refuted. Qed.
-Print Assumptions C05_counters_partition_refuted.
+(* counters -- FULL strength, after the four counter fixes in /repo (killPods counts retained and
+   non-target pods; syncJob counts an out-of-sync pod once; initJobStatus returns a copy; syncJob
+   recounts the pods while the PodGroup is not admitted): after EVERY processed request and every
+   expired delayed action that wrote a status -- whatever the phase, the action, the code path
+   (syncJob with an admitted / absent / pending PodGroup, first sync of a job without a phase,
+   killPods on the job, a task or a pod), the spec, the pods -- the counters on the API server
+   partition exactly the pods there: terminating = being deleted, all others by phase.
+   [fresh_all]: the controller sees the API server's pods / status / spec, task names and pod
+   names are unique, every pod belongs to a task of the spec. *)
+Theorem C05_counters_partition : forall w r w' e wr,
+  step_req w r [] = (w', e, wr) -> wr = true -> fresh_all w ->
+  (st_cnt (w_st w'), st_term (w_st w')) = tally (w_pods w').
+Proof. exact counters_partition. Qed.
+Print Assumptions C05_counters_partition.
 
-Theorem C05_counters_partition_refuted_pg_pending :
-  exists w', step_req pgpending_world sync_req [] = (w', false, true) /\ fresh_world pgpending_world /\
-             partition_ok (w_st w') (w_pods w') = false /\ st_term (w_st w') = 1 /\ w_pods w' = [].
-Proof. exact counters_partition_refuted_pg_pending. Qed.
-Print Assumptions C05_counters_partition_refuted_pg_pending.
+Theorem C05_counters_partition_fire : forall w w' e wr,
+  fire w = (w', e, wr) -> wr = true -> fresh_all w ->
+  (st_cnt (w_st w'), st_term (w_st w')) = tally (w_pods w').
+Proof. exact counters_partition_fire. Qed.
+Print Assumptions C05_counters_partition_fire.
+
+Theorem C05_sync_job_counters_partition : forall w u w' wr,
+  sync_job w u [] = (w', false, wr) -> wr = true \/ c_vdel (v_ctl w) = false ->
+  v_pods w = w_pods w -> v_st w = w_st w -> v_spec w = w_spec w ->
+  NoDup (map t_name (s_tasks (v_spec w))) -> NoDup (pod_ids (w_pods w)) -> owned (v_spec w) (w_pods w) ->
+  (st_cnt (w_st w'), st_term (w_st w')) = tally (w_pods w').
+Proof. exact sync_job_counters_partition. Qed.
+Print Assumptions C05_sync_job_counters_partition.
+
+(* the pre-fix functions are kept in the model, each with its refutation witness *)
+Theorem C05_pgpending_counters_prefix_refuted :
+  exists w', sync_job_pgprefix pgpending_world URestarting [] = (w', false, true) /\ fresh_world pgpending_world /\
+             partition_ok (w_st w') (w_pods w') = false /\ st_phase (w_st w') = PhFailed /\
+             st_term (w_st w') = 1 /\ w_pods w' = [].
+Proof. exact pgpending_counters_prefix_refuted. Qed.
+Print Assumptions C05_pgpending_counters_prefix_refuted.
 
 Theorem C05_killpods_counters_prefix_refuted :
   exists w', kill_pods_prefix f2_world RSoft None UNil [] = (w', false, true) /\ fresh_world f2_world /\
@@ -197,6 +219,10 @@ Proof. exact maxretry_fails_fire. Qed.
 Print Assumptions C05_maxretry_fails_fire.
 
 (* non-vacuity *)
+Example C05_fixed_on_pgpending_witness :
+  exists w', step_req pgpending_world sync_req [] = (w', false, true) /\
+             partition_ok (w_st w') (w_pods w') = true /\ st_phase (w_st w') = PhFailed /\ st_term (w_st w') = 0.
+Proof. exact pgpending_counters_fixed_on_witness. Qed.
 Example C05_fixed_on_f2_witness :
   exists w', step_req f2_world sync_req [] = (w', false, true) /\
              partition_ok (w_st w') (w_pods w') = true /\ st_cnt (w_st w') = mkC 0 0 1 0 0.
@@ -244,3 +270,9 @@ Example C05_nonvacuous_delayed_action :
   st_phase (v_st w3) = PhCompleted /\ st_retry (v_st w3) = 0 /\ d_queue (c_delay (v_ctl w3)) = [] /\
   st_phase (v_st (run w1 [OFire])) = PhRestarting /\ st_retry (v_st (run w1 [OFire])) = 1.
 Proof. exact delayed_action_example. Qed.
+
+Example C05_nonvacuous_counters_partition :
+  fresh_all f2_world /\ fresh_all pgpending_world /\
+  (exists w', step_req f2_world sync_req [] = (w', false, true)) /\
+  (exists w', step_req pgpending_world sync_req [] = (w', false, true)).
+Proof. exact counters_partition_nonvacuous. Qed.
